@@ -93,6 +93,8 @@ def run(rep, facts):
             rep.undecidable("R13.2", "runner-sema-field", "Runner has no field `sema`", loc)
             continue
         e = ir.peel(fields["sema"])
+        while e[0] == 'call' and e[1] in ("std::sync::Arc::new", "alloc::sync::Arc::new") and e[2]:
+            e = ir.peel(e[2][0])       # Arc::new(x) is what `x.into()` does for an Arc field
         kind = None
         if e[0] == 'call' and e[1].endswith("Clone>::clone") and e[2]:
             a0 = ir.peel(e[2][0])
